@@ -33,9 +33,18 @@ func (g G) RefWorld(nPaths int, simple bool) m.WorldM {
 		}
 		nf := g.Int(1, 2)
 		for fi := 0; fi < nf; fi++ {
-			p.Files = append(p.Files, m.FileM{Name: []string{"main.tf", "b.tf"}[fi], Text: g.refConfig(root, paths, pi, simple)})
+			text := g.refConfig(root, paths, pi, simple)
+			if !simple && g.Chance(8) {
+				// the file breaks off inside an index step of a reference
+				text += "output \"zz\" {\n  value = " + Pick(g, []string{"var.a[0", `var.b["k`, "local.a[1", "var.a["}) + Pick(g, []string{"", "\n"})
+			}
+			p.Files = append(p.Files, m.FileM{Name: []string{"main.tf", "b.tf"}[fi], Text: text})
 		}
 		w.Paths = append(w.Paths, p)
+	}
+	if nPaths >= 2 && !simple && g.Chance(15) {
+		// the directory the module inputs of p0 point into cannot be read
+		w.Paths[1].Faulty = true
 	}
 	if nPaths >= 3 {
 		// the third path is a twin of the first (same schema, same files, another directory):
